@@ -1,4 +1,5 @@
 import OH.Props.C07
+import OH.Props.C07E
 import OH.Props.TablesC07
 #print axioms OH.Props.C07.C07_normalize_preserves
 #print axioms OH.Props.C07.C07_normalize_preserves_schedule
@@ -8,4 +9,8 @@ import OH.Props.TablesC07
 #print axioms OH.Props.C07.C07_foldback
 #print axioms OH.Props.C07.C07_tail_cannot_tell
 #print axioms OH.Props.C07.C07_before_repair_fails
+#print axioms OH.Props.C07E.parsed_exprOK
+#print axioms OH.Props.C07E.C07_every_parsed_expression
+#print axioms OH.Props.C07E.C13_every_parsed_expression
+#print axioms OH.Props.C07E.C13_every_normal_form_prints_and_reparses
 #print axioms OH.Props.TablesC07.C07_frames
